@@ -3,6 +3,7 @@
 cd /verif
 for d in seeded/*/; do
   n=$(basename $d); id=${n%%_*}
+  [ -n "$1" ] && ! echo " $* " | grep -q " $n " && continue
   [ -f $d/patch.diff ] || continue
   owner=$id
   [ -f $d/owner_check ] && owner=$(cat $d/owner_check)
